@@ -782,7 +782,7 @@ def run_optimizer_scenario(ctx: Ctx, scn, collect):
                 dmag = float(prev["D"].abs().max()) if "D" in prev else 0.0
                 # Euclidean: (p + D) - D; Lie: Exp(-D)·Exp(D)·X, where the angle's own rounding (eps·|D| rad) acts on a
                 # translation of size |D|: eps·|D|²
-                tolp = ((64 * eps * (1.0 + dmag) ** 2) if lie else (16 * eps * (param_mag(sol[t - 1]["params"]) + dmag))) + 1e-300
+                tolp = ((64 * eps * (1.0 + min(dmag, 1e140)) ** 2) if lie else (16 * eps * (param_mag(sol[t - 1]["params"]) + dmag))) + 1e-300
                 dist = param_dist(before, sol[t - 1]["params"])
                 if dist > tolp:
                     fail(f"restore: after rejected trial {t - 1} the parameters differ from those before the trial by "
@@ -1413,7 +1413,7 @@ def run_opt_stream(ctx: Ctx, scns):
     for i, scn in enumerate(scns):
         try:
             run_optimizer_scenario(ctx, scn, collect)
-        except (IndexError, KeyError, ValueError, OverflowError, TypeError, AttributeError) as e:
+        except (IndexError, KeyError) as e:
             # the recorded event sequence does not have the structure the loop model implies (e.g. an update without a
             # solve, a missing attribute): that is a model/implementation disagreement, not a tool failure
             import traceback
